@@ -363,7 +363,7 @@ def extents(r, node, events, path, out):
             extents(r[2], kids["data"], events, path, out)
 
 
-def run_recipe(ctx, rng, r, d=None, asymmetric_ok=False, pre=None):
+def run_recipe(ctx, rng, r, d=None, asymmetric_ok=False, pre=None, values=None):
     """d: a pre-built construct object for the recipe (shared sub-construct objects, export histories); asymmetric_ok: compare the
     schema with parse also where parse does not give back the value that was built (documented asymmetric options); pre: a
     callable run before the export (earlier exports in the same process)"""
@@ -394,8 +394,8 @@ def run_recipe(ctx, rng, r, d=None, asymmetric_ok=False, pre=None):
     okn = 0
     for j in range(ctx.pick(5, 15)):
         try:
-            v = genval(r, rng, M.top_scope({}))
-            if j % 3 == 2:
+            v = genval(r, rng, M.top_scope({})) if values is None else values[j % len(values)]
+            if j % 3 == 2 and values is None:
                 v = embed_nul(r, v)
             enc = d.build(v)
         except Exception:
@@ -672,6 +672,13 @@ def run(ctx):
         for cmp_, bound in (("<=", 0x7f), ("<", 0x80), (">=", 0x80), (">", 0x7f), ("==", 0), ("!=", 0xff)):
             for _ in range(ctx.pick(3, 12)):
                 run_recipe(ctx, rng, ["Struct", [["xs", ["RepeatUntil", ["bin", cmp_, ["obj"], bound], B]], ["t", B]]])
+        # ... and predicates over a field of the element, whatever that field is called (obj_ is only the element's placeholder)
+        for fname in ("stop", "obj_end", "myobj_", "obj_"):
+            for cmp_ in ("==", ">="):
+                for _ in range(ctx.pick(2, 6)):
+                    stop = rng.randint(3, 250)
+                    vals = [{"xs": [{fname: rng.randint(0, stop - 1), "v": rng.randint(0, 255)} for _ in range(n)] + [{fname: stop if cmp_ == "==" else rng.randint(stop, 255), "v": 1}], "t": rng.randint(0, 255)} for n in (0, 1, 3)]
+                    run_recipe(ctx, rng, ["Struct", [["xs", ["RepeatUntil", ["bin", cmp_, ["obj", fname], stop], ["Struct", [[fname, B], ["v", B]]]]], ["t", B]]], values=vals)
         # a terminator left in the stream for the next member (consume=False: parse does not give back what was built, the schema
         # must still describe what parse does), at top level, in regions at offset 0 and behind headers
         GBs = ["name", "GreedyBytes"]
